@@ -80,7 +80,41 @@ Definition py_trace (setup body : list stmt) (n : nat) : list wv :=
   | PRaise e => [WL [WI 1; WI (wexc e)]]
   end.
 
-(* case: (0 (setup stmts) (body stmts) n)  ->  (0 guard (fw phases) (py phases)) *)
+Fixpoint fw_passes_seq (bodies : list (list stmt)) (st : fstate) : list wv :=
+  match bodies with
+  | [] => []
+  | b :: r =>
+      match run_pass b st with
+      | Safe (st1, o) => fw_phase st1 o :: fw_passes_seq r st1
+      | Unsafe k => [WL [WI 1; WI (wkind k)]]
+      end
+  end.
+
+Definition fw_trace_seq (setup : list stmt) (bodies : list (list stmt)) : list wv :=
+  match run_setup setup with
+  | Safe (st0, o) => fw_phase st0 o :: fw_passes_seq bodies st0
+  | Unsafe k => [WL [WI 1; WI (wkind k)]]
+  end.
+
+Fixpoint py_passes_seq_tr (bodies : list (list stmt)) (st : pstate) : list wv :=
+  match bodies with
+  | [] => []
+  | b :: r =>
+      match py_pass b st with
+      | POk (st1, o) => py_phase st1 o :: py_passes_seq_tr r st1
+      | PRaise e => [WL [WI 1; WI (wexc e)]]
+      end
+  end.
+
+Definition py_trace_seq (setup : list stmt) (bodies : list (list stmt)) : list wv :=
+  match py_setup setup with
+  | POk (st0, o) => py_phase st0 o :: py_passes_seq_tr bodies st0
+  | PRaise e => [WL [WI 1; WI (wexc e)]]
+  end.
+
+(* case: (0 (setup stmts) (body stmts) n)  ->  (0 guard (fw phases) (py phases))
+   case: (1 (setup stmts) (body stmts) (gates) (g values, one per pass))  ->  the same for the
+         history in which pass k executes the body statements whose gate t satisfies t < g_k *)
 Definition run (v : wv) : wv :=
   match v with
   | WL [WI 0; WL s; WL b; WI n] =>
@@ -92,6 +126,16 @@ Definition run (v : wv) : wv :=
                WL (fw_trace setup body k);
                WL (py_trace setup body k)]
       | _, _ => wbad
+      end
+  | WL [WI 1; WL s; WL b; WL gates; WL gvals] =>
+      match un_sstmts s, un_sstmts b, un_ints gates, un_ints gvals with
+      | Some ss, Some bs, Some gs, Some vs =>
+          let '(setup, body) := elab_prog ss bs in
+          let bodies := map (fun g => select g gs body) vs in
+          wok [wbool (single_owner_seq setup bodies);
+               WL (fw_trace_seq setup bodies);
+               WL (py_trace_seq setup bodies)]
+      | _, _, _, _ => wbad
       end
   | _ => wbad
   end.
